@@ -57,7 +57,7 @@ def run(tier, replay=None):
         os.environ["VERIF_SEED"] = str(info.get("seed", vflib.seed()))
         tz = info["record"].get("tz")
         summ = common.harness_traces("c02", info.get("tier", tier), shards=1, env={"TZ": tz} if tz else env,
-                                     extra_args=["-x", "layouts=%s;only=%s%s" % (layouts, info["record"]["k"], ";zonepass=1" if tz else "")])
+                                     extra_args=["-x", "layouts=%s;only=%s%s" % (layouts, info["record"]["k"], ";zonepass=1" if tz else (";poison=" + info["record"]["poison"]) if info["record"].get("poison") else "")])
         common.validate(v, "Trace_Api", "Trace_Api.cfg", summ, key)
         return v.finish(write_evidence=False)
     v = Verdict(PROP, tier, "model_checking")
@@ -70,6 +70,14 @@ def run(tier, replay=None):
     common.model_checks(v, [("MC_Wire", "MC_Wire.cfg", {"workers": 1}, "pass")])
     summ = common.harness_traces("c02", tier, shards=16, env=env, extra_args=["-x", "layouts=" + layouts], timeout=7200)
     common.validate(v, "Trace_Api", "Trace_Api.cfg", summ, key, prop=PROP)
+    # poison pass: one fresh process per k; in each, the first reply ever decoded for every reply type is refused (field k outside
+    # its domain / a stray), the next ten are well formed
+    from concurrent.futures import ThreadPoolExecutor
+    ks = range(8) if tier == "quick" else range(26)
+    with ThreadPoolExecutor(max_workers=8) as ex:
+        psumms = list(ex.map(lambda k: common.harness_traces("c02", tier, shards=1, env=env, extra_args=["-x", "layouts=%s;poison=%d" % (layouts, k)], name="c02-poison-%d" % k), ks))
+    merged = {"files": [f for p in psumms for f in p["files"]], "records": sum(p["records"] for p in psumms), "distinct": sum(p["distinct"] for p in psumms), "samples": [], "counts": {}}
+    common.validate(v, "Trace_Api", "Trace_Api.cfg", merged, key, prop=PROP)
     # zone pass: the operations that carry dates / times, answered with replies whose calendar fields sit on the offset-change
     # days of a zone with DST (civil times that exist there), in a child process running in that zone
     zs = ["America/New_York", "Europe/London", "America/Santiago", "Australia/Lord_Howe", "Asia/Tehran", "Africa/Casablanca"]
@@ -81,6 +89,6 @@ def run(tier, replay=None):
     v.coverage["rule"] = ("per reply-bearing operation (30, GetDevices is C11's): well-formed replies with random field values, argument-echoing replies, sentinel patterns, "
                           "each field outside its domain / zero / random with the others valid, every byte of every field over all 256 values, random payloads; "
                           "date patterns (months 0..13 x days 0..32 x 6 years) in every date slot; HH:mm byte pairs (quick: the plausible quarter + samples, thorough: all 2^16). "
-                          "zone pass: GetStatus / GetTime / SetTime / GetEvent / GetCard* / GetTimeProfile / GetDevice with calendar fields on a DST zone's offset-change days, child process in that zone. distinct = distinct (arguments, reply bytes)")
+                          "poison pass: fresh processes in which the first reply per type is refused and the following ones are well formed; zone pass: GetStatus / GetTime / SetTime / GetEvent / GetCard* / GetTimeProfile / GetDevice with calendar fields on a DST zone's offset-change days, child process in that zone. distinct = distinct (arguments, reply bytes)")
     v.coverage["checker_cmd"] = "tlc Trace_Api (VF_TRACE=<shard>)"
     return v.finish()
